@@ -405,6 +405,9 @@ pub fn odd_id(rng: &mut Rng, i: usize) -> usize {
     }
 }
 
+pub const LONG_MARKER_600: &str = "<mark data-x=\"0123456789012345678901234567890123456789012345678901234567890123456789012345678901234567890123456789012345678901234567890123456789012345678901234567890123456789012345678901234567890123456789012345678901234567890123456789012345678901234567890123456789012345678901234567890123456789012345678901234567890123456789012345678901234567890123456789012345678901234567890123456789012345678901234567890123456789012345678901234567890123456789012345678901234567890123456789012345678901234567890123456789012345678901234567890123456789012345678901234567890123456789012345678901234567890123456789012345678901234567890123456789012345678901234567890123456789\">";
+pub const LONG_MARKER_5000: &str = include_str!("../data/long_marker.txt");
+
 pub const MARKERS: &[(&str, &str)] = &[
     ("[", "]"),
     ("", ""),
@@ -426,6 +429,8 @@ pub const MARKERS: &[(&str, &str)] = &[
     ("\u{e002}", "\u{e003}"),
     ("𝐀", "😀"),
     ("ab", "abc"),
+    (LONG_MARKER_600, "]"),
+    ("[", LONG_MARKER_5000),
     ("x", "xx"),
     ("}}", "{{"),
     ("[[[[[[[[[[[[[[[[[[[[[[[[[[[[[[[[[[[[[[[[[[[[[[[[[[[[[[[[[[[[[[[[[[[[[[[[[[[[[[[[[[[[[[[[[[[[[[[[[[[[[[[[[[[[[[[[[[[[[[[[[[[[[[[[[[[[[[[[[[[[[[[[[[[[[[[[[[[[[[[[[[[[[[[[[[[[[[[[[[[[[[[[[[[[[[[[[[[[[[[[[[[[[[[[[[[[[[[[[[[[[[[[[[[[[[[[[[[[[[[[[[[[[[[[[[[[[[[[[[[[[[[[[[[[[[[[[[[[[[[[[[[[[[[[[[[[", "]"),
